@@ -7,7 +7,7 @@ OK lines, substitutes error lines, and raises at any write or read.
 DESIGN.md section 7, C07.
 """
 
-from common import (V, EXC_ALL, ebb_spec, PORT_NAMES, mk_ops, lcall, discover, single_faults, with_faults,
+from common import (V, pair_faults, EXC_ALL, ebb_spec, PORT_NAMES, mk_ops, lcall, discover, single_faults, with_faults,
                     failish)
 
 PROP = 'C07'
@@ -41,7 +41,8 @@ NO_OK = ('a', 'i', 'mr', 'pi', 'qm', 'qg', 'v')
 OK_QUERIES = ['QB\r', 'QP\r', 'QS\r', 'QC\r', 'QL\r', 'QT\r', 'QE\r', 'QL,3\r', ' QS\r', 'qb\r']
 NOOK_QUERIES = ['V\r', 'v\r', 'QG\r', 'QM\r', 'I\r', 'A\r', 'MR\r', 'PI,B,1\r', 'PI,B,3\r', 'pi,B,2\r', ' V\r', 'QG \r']
 COMMANDS = ['EM,0,0\r', 'EM,1,1\r', 'SP,1\r', 'SP,0,100\r', 'TP\r', 'SC,4,100\r', 'CS\r', 'PO,B,1,1\r', 'PO,B,3,1\r',
-            'PO,B,1,0\r', 'XM,10,2,3\r', 'RB\r']
+            'PO,B,1,0\r', 'XM,10,2,3\r', 'ST,{bot}\r', 'ST,a}b{0}\r', 'SL,{1}\r', 'ST,100%s\r', 'RB\r']
+ODD_QUERIES = ['QL,{0}\r', 'QL,%d\r', 'PI,{B},1\r']      # the board answers these with an error line
 
 
 def kind_of(text):
@@ -104,7 +105,7 @@ def check(scn, hist):
                 continue
             # 1. the request is written exactly once, verbatim
             got = rec['wire'].get(port, '')
-            if got != text and not (write_faulted and got == ''):
+            if got != text and not (write_faulted and text.startswith(got)):
                 out.append(V(PROP, 'wire', fn, oid, 'sent %r, expected %r' % (got, text)))
             extra = {p: w for p, w in rec['wire'].items() if p != port and w}
             if extra:
@@ -151,7 +152,8 @@ def check(scn, hist):
                                      'returned %r, the data line of this request is %r (lines %r)'
                                      % (rec['ret'], data, lines)))
             # 4. alignment is kept: nothing of this request's reply is left for the next one
-            errored = req is not None and bool((req.get('plan') or {}).get('err'))
+            errored = req is not None and (bool((req.get('plan') or {}).get('err')) or
+                                           any('Err:' in ln for ln, _ in lines))
             # (whether real firmware follows an error line with OK is not known to this model; both
             #  variants are explored, and what is left unread after an error line is not judged)
             if clean and conforming and not fired and not errored and rec['pending'].get(port):
@@ -275,12 +277,57 @@ def sweep_cells(tier):
     # a board without a nickname answers QT with a blank data line (then OK): still a data line
     cells.append(['query', 'QT\r', False, True, 'blank'])
     cells.append(['query', 'QT\r', True, False, 'blank'])
+    for nick in ('OK', 'ok', '{n}', 'Err'):
+        cells.append(['query', 'QT\r', False, True, nick])
+    for text in ('ST,{bot}\r', 'ST,a}b{0}\r', 'SL,{1}\r', 'ST,100%s\r'):
+        cells.append(['command', text, False, True])
+        cells.append(['command', text, True, False])
+    for text in ODD_QUERIES:
+        cells.append(['query', text, False, True])
+    for k in range(len(AFTER_TIMEOUT)):
+        cells.append(['_after_timeout', k])
     return cells
 
 
+# what a complete timeout (or an exception) in one request must not do to later requests
+AFTER_TIMEOUT = [('command', 'SM,10,1,2\r'), ('query', 'QB\r'), ('query', 'V\r'), ('query', 'QS\r')]
+
+
+def after_timeout(k):
+    kind, text = AFTER_TIMEOUT[k]
+    world = _world(2)
+    p0, p1 = world['boards'][0]['port'], world['boards'][1]['port']
+    nl = awaited(text, kind == 'query')
+    firsts = [{'reply': [{'at': [2, 1], 'drop': 'all'}]},
+              {'io': [{'at': [2, 2], 'kind': 'raise', 'exc': 'SerialException'}]},
+              {'io': [{'at': [2, 1], 'kind': 'raise', 'exc': 'SerialTimeoutException'}]}]
+    if nl == 2:
+        firsts.append({'reply': [{'at': [2, 1], 'drop': [1]}]})          # data arrives, its OK never does
+    for first in firsts:
+        for slot2 in (0, 1):
+            for kind2, text2 in (('command', 'EM,1,1\r'), ('query', 'QB\r'), ('query', 'QS\r'), (kind, text)):
+                nl2 = awaited(text2, kind2 == 'query')
+                for d in (0, 1, 11, 50, 100):
+                    for j in range(nl2):
+                        ds = [0] * nl2
+                        ds[j] = d
+                        ops = [{'op': 'lopen', 'slot': 0, 'port': p0}, {'op': 'lopen', 'slot': 1, 'port': p1},
+                               lcall('ebb_serial.' + kind, [{'slot': 0}, text]),
+                               lcall('ebb_serial.' + kind2, [{'slot': slot2}, text2])]
+                        for f, t in FOLLOW:
+                            ops.append(lcall(f, [{'slot': slot2}, t]))
+                        fl = {'reply': list(first.get('reply', [])) + [{'at': [3, 1], 'delay': ds}],
+                              'io': list(first.get('io', []))}
+                        yield {'prop': PROP, 'world': world, 'ops': mk_ops(ops), 'faults': fl}
+
+
 def sweep_expand(cell):
+    if cell[0] == '_after_timeout':
+        for scn in after_timeout(cell[1]):
+            yield scn
+        return
     kind, text, err_ok, verbose = cell[:4]
-    world = _world(1, err_ok, nicks=[''] if len(cell) > 4 else None)
+    world = _world(1, err_ok, nicks=[{'blank': ''}.get(cell[4], cell[4])] if len(cell) > 4 else None)
     port = world['boards'][0]['port']
     ops = [{'op': 'lopen', 'slot': 0, 'port': port},
            lcall('ebb_serial.command', [{'slot': 0}, 'SL,77\r']),
@@ -292,6 +339,10 @@ def sweep_expand(cell):
     rec = recs[2]
     yield base
     for tag, faults in single_faults(rec, exc_classes=EXC_ALL, reply_kinds=['drop', 'drop_request', 'err_bang']):
+        yield with_faults(base, faults)
+    # two faults in one call: empty reads inside the budget on either awaited line, then an exception /
+    # unplug at any later I/O event (inside either retry loop)
+    for faults in pair_faults(base, 2, delays=(1, 100), exc_classes=('SerialException', 'RuntimeError')):
         yield with_faults(base, faults)
     nl = awaited(text, kind == 'query')
     delays = [0, 1, 2, 99, 100]
@@ -310,7 +361,7 @@ def gen(rng, idx):
     style = rng.choice(['mac', 'linux', 'win'])
     fw = rng.choice([(2, 5, 5), (2, 6, 2), (2, 8, 1), (3, 0, 2)])
     world = _world(nb, err_ok=rng.random() < 0.5, fw=fw, style=style,
-                   nicks=[rng.choice(['', 'Leg%d' % i, ' pad ']) for i in range(nb)])
+                   nicks=[rng.choice(['', 'Leg%d' % i, ' pad ', 'OK', 'ok', '{n}', 'Err']) for i in range(nb)])
     ops = []
     for i in range(nb):
         ops.append({'op': 'lopen', 'slot': i, 'port': world['boards'][i]['port']})
@@ -323,8 +374,10 @@ def gen(rng, idx):
         extra = [vb] if rng.random() < 0.5 else []
         if r < 0.30:
             ops.append(lcall('ebb_serial.query', [{'slot': s}, rng.choice(OK_QUERIES)] + extra))
-        elif r < 0.55:
+        elif r < 0.52:
             ops.append(lcall('ebb_serial.query', [{'slot': s}, rng.choice(NOOK_QUERIES)] + extra))
+        elif r < 0.55:
+            ops.append(lcall('ebb_serial.query', [{'slot': s}, rng.choice(ODD_QUERIES)] + extra))
         elif r < 0.70:
             ops.append(lcall('ebb_serial.command', [{'slot': s}, rng.choice(COMMANDS[:-1])] + extra))
         elif r < 0.80:
